@@ -55,7 +55,7 @@ func (c GenCfg) label(r *rand.Rand, allowName, allowSub, allowIface bool) Label 
 	var l Label
 	l.Type = r.Intn(c.NTypes)
 	if allowIface && c.Ifaces && r.Intn(5) == 0 {
-		l.Type = nConcrete + r.Intn(2)
+		l.Type = randIface(r)
 	}
 	if allowName && len(c.Names) > 0 && chance(r, c.nameP()) {
 		l.Name = pick(r, c.Names)
@@ -239,6 +239,9 @@ func producerFor(p Label, r *rand.Rand) Label {
 		if isIface(p.Type) {
 			c := concreteFor(p.Type, r)
 			cands = append(cands, Label{Type: c}, Label{Type: c, Sub: "y"}) // M4
+			if p.Type != tI2 {
+				cands = append(cands, Label{Type: tI2}) // a narrower interface implements it too
+			}
 		}
 	} else {
 		cands = append(cands, Label{Type: p.Type, Sub: p.Sub}) // M6 equal
@@ -253,6 +256,9 @@ func producerFor(p Label, r *rand.Rand) Label {
 		if isIface(p.Type) {
 			c := concreteFor(p.Type, r)
 			cands = append(cands, Label{Type: c}, Label{Type: c, Sub: "x"}) // M7
+			if p.Type != tI2 {
+				cands = append(cands, Label{Type: tI2})
+			}
 		}
 	}
 	l := pick(r, cands)
@@ -334,7 +340,7 @@ func Constructive(r *rand.Rand, cc ChainCfg) (Scenario, int) {
 	for i := 0; i < nt; i++ {
 		l := Label{Type: perm[i]}
 		if cc.Ifaces && r.Intn(6) == 0 {
-			l.Type = nConcrete + r.Intn(2)
+			l.Type = randIface(r)
 		}
 		if r.Intn(2) == 0 {
 			l.Name = []string{"a", "b", "c"}[i%3]
@@ -396,7 +402,7 @@ func Constructive(r *rand.Rand, cc ChainCfg) (Scenario, int) {
 		for k := 0; k < nin; k++ {
 			l := Label{Type: r.Intn(nConcrete)}
 			if cc.Ifaces && r.Intn(8) == 0 {
-				l.Type = nConcrete + r.Intn(2)
+				l.Type = randIface(r)
 			}
 			if r.Intn(3) == 0 {
 				l.Name = pick(r, []string{"a", "b", "c", "d"})
@@ -604,7 +610,7 @@ func consumerFor(src Label, r *rand.Rand, subtypes bool) Label {
 		} else {
 			cands = append(cands, Label{Type: src.Type})
 		}
-		for _, it := range []int{tI0, tI1} {
+		for _, it := range []int{tI0, tI1, tI2} {
 			if implements(src.Type, it) {
 				cands = append(cands, Label{Type: it}, Label{Name: pick(r, []string{"a", "b", "c"}), Type: it})
 			}
